@@ -69,9 +69,19 @@ fn parse_header(header: &str) -> Result<Header, ParseError> {
             })
         }
         Some(UNKNOWN) => {
-            while iterator.next_if(|&s| s != NEWLINE).is_some() {}
-
-            Addresses::Unknown
+            // Everything between the protocol and the end of the line is ignored,
+            // no matter how many fields it looks like.
+            return match header
+                .find(CARRIAGE_RETURN)
+                .map(|index| &header[index + 1..])
+            {
+                Some(NEWLINE) => Ok(Header {
+                    header: Cow::Borrowed(header),
+                    addresses: Addresses::Unknown,
+                }),
+                Some(suffix) if !suffix.is_empty() => Err(ParseError::InvalidSuffix),
+                _ => Err(ParseError::MissingNewLine),
+            };
         }
         Some(protocol) if protocol.is_empty() && iterator.peek().is_none() => {
             return Err(ParseError::MissingProtocol)
